@@ -8,7 +8,7 @@ from ..gen import G, Scope, I, gen_int, gen_bool, gen_str, gen_expr
 ID = "C01"
 LEVEL = "exploration"
 RULE = ("cases are well-typed programs of the core statement language built by a type-directed Hypothesis generator "
-        "(<= 80 statements, nesting <= 5: if / else-if / else, while, from..to/through with literal or variable step and "
+        "(<= 80 statements, nesting <= 5: if / else-if / else, while, from..to/through with literal, variable or compound-expression step and "
         "anonymous / named / colliding counter, break, continue, return, functions with parameters, recursion through self(), "
         "int/bool/str expressions, list indexing, division) plus an enumerated family of small control-flow skeletons; the "
         "oracle is an independent reference interpreter (lexical scoping, checked i32 arithmetic): stdout must equal the "
@@ -147,7 +147,7 @@ def gen_from(c, depth, loop_depth, fn_ret):
         # keep iteration counts small whatever the data: clamp through a literal window
         pass
     inclusive = g.chance(50)
-    stepk = g.weighted([(4, "none"), (3, "lit"), (2 if sc.visible("int") else 0, "var")])
+    stepk = g.weighted([(4, "none"), (3, "lit"), (2, "var"), (2, "expr")])
     pre = []
     step = None
     if stepk == "lit":
@@ -157,6 +157,13 @@ def gen_from(c, depth, loop_depth, fn_ret):
         # a positive step held in a variable (the statement quantifies over positive steps)
         step = ("var", sv)
         pre = [("decl", sv, None, I(g.int(1, 3)), ())]
+        sc.declare(sv, "int")
+        sc.protected.add(sv)
+    elif stepk == "expr":
+        # a step that compiles to several instructions (evaluated once per iteration, also after `continue`)
+        sv = g.fresh("s")
+        step = g.choice([("bin", "+", ("var", sv), I(g.int(0, 2))), ("bin", "*", ("var", sv), I(g.int(1, 2))), ("bin", "-", I(g.int(3, 4)), ("var", sv))])
+        pre = [("decl", sv, None, I(g.int(1, 2)), ())]
         sc.declare(sv, "int")
         sc.protected.add(sv)
     namek = g.weighted([(3, "anon"), (4, "named"), (2 if sc.assignable("int") else 0, "collide")])
